@@ -102,6 +102,13 @@ def spec_on_impl(ops, obs, uni):
         for a, (src, _) in d["aliases"].items():
             if a not in nodes or src not in nodes:
                 return False, f"alias source {a}:{src} refers to a dead node", k
+        # a type definition is exported under exactly one name: the one its node records (and is encoded with)
+        for p in nodes.values():
+            if p[1] == "D":
+                names = sorted(nm for nm, x in d["exports"].items() if x == p[0])
+                if names != [p[4]]:
+                    return False, (f"definition {p[0]} records export name {p[4]} but the export map designates it "
+                                   f"under {names}"), k
         nargs = 0
         for i, l in d["args"].items():
             for (a, src) in l:
@@ -155,6 +162,18 @@ def spec_on_impl(ops, obs, uni):
                     return False, "unregister removed or kept the wrong nodes", k
             if f[0] == "export" and d["exports"].get(f[2]) != f[1]:
                 return False, "exported name does not map to the node", k
+            if f[0] == "export" and f[1] in pn:
+                # exporting a definition under another name RENAMES it; any other node keeps its earlier names
+                before = {nm for nm, x in prev["exports"].items() if x == f[1]}
+                after = {nm for nm, x in d["exports"].items() if x == f[1]}
+                want = {f[2]} if pn[f[1]][1] == "D" else before | {f[2]}
+                if after != want:
+                    return False, (f"after export the node is designated by {sorted(after)}, expected {sorted(want)} "
+                                   f"({'definition: renamed' if pn[f[1]][1] == 'D' else 'earlier names kept'})"), k
+                others_before = {nm: x for nm, x in prev["exports"].items() if x != f[1]}
+                others_after = {nm: x for nm, x in d["exports"].items() if x != f[1]}
+                if others_before != others_after:
+                    return False, "export changed the export names of another node", k
             if f[0] == "unexport" and f[1] in d["exports"].values():
                 return False, "unexported node still has an export name", k
             if f[0] == "alias" and res.startswith("n"):
